@@ -902,7 +902,7 @@ def history_signature(sig, plain, hist):
         used = {b for h in hist for b in case_twins(spec_alphabet(h))}
         cls = "member-of-alphabet-used-before" if fb and all(f in used for f in fb) else "other"
         return "encode-after-history:accepts-foreign:%s:%s" % (cls, plain["path"])
-    return "encode-after-history:" + sig
+    return "encode-after-history:" + (sig[len("encode:"):] if sig.startswith("encode:") else sig)
 
 
 def eval_enc_after(col, case):
